@@ -224,6 +224,21 @@ def worker(shard, nshards, plan, quick):
                         res["evaluations"] += 1
                         if exc is not None and not isinstance(exc, SqlglotError):
                             R.record("generate", target, f"transpile:{dialect}", sql, exc, steps, n)
+        elif kind == "arity":
+            # every function name the dialect's parser registers (FUNCTIONS, FUNCTION_PARSERS, NO_PAREN_FUNCTION_PARSERS) called
+            # with 0..5 positional arguments of mixed kinds: builders that index into their argument list
+            P = D.parser_class
+            names = sorted(set(getattr(P, "FUNCTIONS", {})) | set(getattr(P, "FUNCTION_PARSERS", {})))
+            argv = ["a", "1", "'x'", "b", "2"]
+            for name in names:
+                idx += 1
+                if idx % nshards != shard:
+                    continue
+                for n_args in range(0, 6):
+                    R.one(f"SELECT {name}({', '.join(argv[:n_args])}) FROM t", dialect, unit[2])
+                R.one(f"SELECT {name}(DISTINCT a) FROM t", dialect, unit[2])
+                R.one(f"SELECT {name}(*) FROM t", dialect, unit[2])
+                R.one(f"SELECT {name}(a => 1, b => 2) FROM t", dialect, unit[2])
         elif kind == "soups":
             _, _, n, levels = unit
             for ln in range(1, n + 1):
@@ -289,6 +304,8 @@ def run(ctx: Ctx) -> None:
         by_d.setdefault(d, []).append(sql)
     for d, sqls in sorted(by_d.items()):
         plan.append(("mutants", d, sqls, ["IMMEDIATE", "IGNORE"] if quick else ["IMMEDIATE", "RAISE", "WARN", "IGNORE"], False))
+    for d in all_dialects():
+        plan.append(("arity", d, ["IMMEDIATE", "IGNORE"] if quick else ["IMMEDIATE", "RAISE", "WARN", "IGNORE"]))
     from vlib.grammar_clauses import clause_statements
 
     cl = [sql for sql, tags in clause_statements()]
@@ -319,7 +336,8 @@ def run(ctx: Ctx) -> None:
                     "G_core k<=1 statements, of identity.sql and of every statement of tests/dialects/*.py in its own dialect (" + str(len(corpus.dialect_test_sql())) + " seeds); every token soup of length <= 3 over the 40-token menu; every "
                     "character string of length <= 3 over a 34-character alphabet; 25 pumping families (n up to 64 / nesting 32); x dialects x "
                     "error levels; every returned tree generated in its own and the base dialect; every G_clauses statement (base) and every "
-                    "dialect-test statement (own dialect) generated into ALL dialects. non-trivial = runs that ended in a "
+                    "dialect-test statement (own dialect) generated into ALL dialects; every function name registered by each dialect's parser called "
+                    "with 0..5 positional arguments, DISTINCT, * and named arguments. non-trivial = runs that ended in a "
                     "sqlglot error (the error paths were driven).",
             "step_budget": BUDGET_FORMULA,
             "max_steps_per_char_in_pumping": round(res["max_steps_per_char"], 1),
